@@ -80,7 +80,7 @@ Section Nodes.
     destruct (ty_eqb a' b'); [discriminate|].
     pose proof (trace_nodes E ts a a' Ha Ta) as Ha'.
     pose proof (trace_nodes E ts b b' Hb Tb) as Hb'.
-    clear Ta Tb Ha Hb a b.
+    clear Ta Tb Ha Hb a b. unfold arms.
     destruct a' as [pa|xa|ta|ta|fa|fa|aa ra ma|msa|ia ta|], b' as [pb|xb|tb|tb|fb|fb|ab rb mb|msb|ib tb|];
       try destruct pa; try destruct pb; try discriminate;
       intros Hv q Hq; unfold inN;
